@@ -32,6 +32,7 @@ VARIABLES l,      \* next line of the trace
 tvars == <<l, ok, run, bad, nruns, privq, privs, flushed, ndiv>>
 
 T(t) == IF t = 0 THEN PID ELSE t
+TH(ev) == IF ev.e = "Deadlock" THEN PID ELSE T(ev.t)
 StopName(i) == "stop" \o ToString(i)
 
 PrivFree == privq = 0 /\ \A i \in W : privs[i] = 0
@@ -117,16 +118,30 @@ TReset(ev) ==
   /\ bad' = IF match \/ Len(bad) >= 40 THEN bad
             ELSE Append(bad, [run |-> ev.run, line |-> l, e |-> "config-mismatch"])
 
+\* Inference mode (traces of the real block constructor, which logs synchronisation operations
+\* only): the steps of L2 that have no synchronisation operation of their own - loop head of the
+\* producer, entry / critical section / return of a task - are taken silently, by the thread of
+\* the next event, when that event is not yet enabled.  At most one of {event, silent step} is
+\* enabled in any state (they sit at different program points), so validation stays linear.
+Infer == "INFER" \in DOMAIN IOEnv /\ IOEnv.INFER = "1"
+Silent(th) == IF th = PID THEN (CNext \/ JoinEnd) ELSE (RunBegin(th) \/ RunEnd(th) \/ TCrit(th))
+Ignored == {"Timeout", "Crash", "End", "Built"}
+
 TNext ==
-  \/ /\ l <= Len(TraceLog) /\ l' = l + 1 /\ flushed' = flushed
+  \/ /\ l <= Len(TraceLog) /\ flushed' = flushed
      /\ LET ev == TraceLog[l] IN
-        IF ev.e = "Reset" THEN TReset(ev)
-        ELSE IF ~ok \/ ev.e \in {"Timeout", "Crash", "End"}
-          THEN UNCHANGED <<vars, ok, run, bad, nruns, privq, privs, ndiv>>
-        ELSE IF ENABLED ActX(ev, T(ev.t)) THEN
-          /\ ActX(ev, T(ev.t)) /\ UNCHANGED <<ok, run, bad, nruns, ndiv>>
+        IF ev.e = "Reset" THEN TReset(ev) /\ l' = l + 1
+        ELSE IF ~ok \/ ev.e \in Ignored
+          THEN l' = l + 1 /\ UNCHANGED <<vars, ok, run, bad, nruns, privq, privs, ndiv>>
+        ELSE IF Infer /\ ev.e = "Deadlock" /\ \E th \in Thr : ENABLED Silent(th) THEN
+          /\ Silent(CHOOSE th \in Thr : ENABLED Silent(th))
+          /\ UNCHANGED <<l, ok, run, bad, nruns, privq, privs, ndiv>>
+        ELSE IF ENABLED ActX(ev, TH(ev)) THEN
+          /\ ActX(ev, TH(ev)) /\ l' = l + 1 /\ UNCHANGED <<ok, run, bad, nruns, ndiv>>
+        ELSE IF Infer /\ ev.e # "Deadlock" /\ ENABLED Silent(T(ev.t)) THEN
+          /\ Silent(T(ev.t)) /\ UNCHANGED <<l, ok, run, bad, nruns, privq, privs, ndiv>>
         ELSE
-          /\ UNCHANGED <<vars, run, nruns, privq, privs>>
+          /\ l' = l + 1 /\ UNCHANGED <<vars, run, nruns, privq, privs>>
           /\ ok' = FALSE /\ ndiv' = ndiv + 1
           /\ bad' = IF Len(bad) < 40 THEN Append(bad, [run |-> run, line |-> l, e |-> ev.e]) ELSE bad
   \/ /\ l = Len(TraceLog) + 1 /\ ~flushed /\ flushed' = TRUE
